@@ -147,3 +147,10 @@ def fl_truthy(a):
 id_depth = z3.RecFunction("id_depth", STR, INT)
 _s = z3.Const("s", STR)
 z3.RecAddDefinition(id_depth, [_s], z3.If(STR.is_SInt(_s), 1, z3.If(STR.is_SCat(_s), id_depth(STR.shead(_s)) + 1, 0)))
+
+
+# ---- coordinate view: one generic element of an array expression.  Tier "fp64": IEEE binary64, round-to-nearest-even;
+# tier "real": mathematical reals.  The tier is chosen per contract (elem_tier=...).
+FP64 = z3.Float64()
+RNE = z3.RNE()
+ELEM_SORT = [FP64]
